@@ -18,8 +18,8 @@
 
   The interpreter keys the operation objects by node name and updates a name once per `update()`; two occurrences of the
   same sub-formula then see the same inputs, so a tree of states behaves the same (the discrete-time counterpart of this
-  is proved in C09).  `last = float('nan')` of case 1 of the online intersection (a float where a list is expected)
-  is `Last.nan`; using it is a `TypeError`.
+  is proved in C09).  Case 1 of the online intersection (interval 1 precedes interval 2) resets the pending sample:
+  `last = []` (`Last.nil`), as the symmetric branches of the two tail loops do.
 
   The correspondence check feeds the same batches to the real `update()` and to `runOn` and compares every returned
   list sample by sample (`harness/dense.py`, stream `on-c/mirror`).
@@ -31,10 +31,9 @@ open Rtamt Val Rtamt.Dense.Alg
 
 variable {α : Type} [Val α]
 
-/-- The pending sample `last` of the online intersection: `[]`, the float NaN of case 1, or `[t, v]`. -/
+/-- The pending sample `last` of the online intersection: `[]` or `[t, v]`. -/
 inductive Last (β : Type)
   | nil
-  | nan
   | item (t : Tm) (v : β)
   deriving Repr, Inhabited
 
@@ -51,7 +50,7 @@ def onLoop (f : α → α → β) (ne : β → β → Bool) :
       let l2 := (p2, v2) :: (c2, w2) :: r2
       let l1' := (c1, w1) :: r1
       let l2' := (c2, w2) :: r2
-      if lt c1 p2 then onLoop f ne l1' l2 out .nan                                                        -- 1
+      if lt c1 p2 then onLoop f ne l1' l2 out .nil                                                        -- 1
       else if lt p1 c1 && c1 == p2 && lt p2 c2 then onLoop f ne l1' l2 out (.item p2 (f w1 v2))           -- 2
       else if lt p1 p2 && lt p2 c1 && lt c1 c2 then
         onLoop f ne l1' l2 (appendD ne out (p2, o)) (.item c1 (f w1 v2))                                  -- 3
@@ -140,7 +139,6 @@ def binUpdate (f : α → α → α) (st : BinSt α) (sl sr : ASig α) : Except 
   let (result, last, left, right) ← interOn f vne b1 b2
   let result ← match last with
     | .nil => pure result
-    | .nan => .error .type
     | .item t v =>
         match result.getLast? with
         | none => pure [(t, v)]
